@@ -8,11 +8,14 @@
   such interleaving can produce from a fresh buffer.  The invariant and its preservation are
   in `Ptk.Props.C15Inv`; here the property is read off it.
 
-  All theorems about reachable states assume `cfg.fixD1 = true`, i.e. the code as it is in
-  /repo since commit 279c220; `unfixed_dangles` shows the statement is false without it.
+  All theorems about reachable states assume `CfgOK cfg`: `cfg.fixD1 = true`, i.e. the code as
+  it is in /repo since commit 279c220 (`unfixed_dangles` shows the statement is false without
+  it), and a positive `buffer_size`.  `cfg.threaded` chooses between an asynchronous completer
+  and a `ThreadedCompleter` (producer thread + bounded queue, `Ptk.Model.C15Thread`); the
+  theorems hold for both.
   User code is arbitrary: `env.comp`, `env.valid`, `env.sugg` are universally quantified.
 -/
-import Ptk.Props.C15Inv
+import Ptk.Props.C15Sched
 import Ptk.Props.C15Common
 namespace Ptk.C15
 open Ptk.Py
@@ -25,7 +28,7 @@ def Reachable (cfg : Config) (env : Env) (s : St) : Prop :=
   ∃ (d : Doc) (as : List Act), d.WF ∧ s = run cfg env (init d) as
 
 /-- **All interleavings, unbounded**: every reachable state satisfies the invariant. -/
-theorem reachable_inv (hfix : cfg.fixD1 = true) {s : St} (h : Reachable cfg env s) : Inv cfg env s := by
+theorem reachable_inv (hfix : CfgOK cfg) {s : St} (h : Reachable cfg env s) : Inv cfg env s := by
   obtain ⟨d, as, hd, rfl⟩ := h
   exact run_inv (init_inv d hd) hfix as
 
@@ -57,12 +60,12 @@ theorem applyCompl_spec (d : Doc) (c : Completion) (hc : c.start ≤ 0) :
 
 /-- **menu_text_consistent**: whenever a completion menu exists, the buffer's text and cursor
     are exactly what the menu's state computes (`new_text_and_position`). -/
-theorem menu_text_consistent (hfix : cfg.fixD1 = true) {s : St} (h : Reachable cfg env s)
+theorem menu_text_consistent (hfix : CfgOK cfg) {s : St} (h : Reachable cfg env s)
     {st : CState} (hcs : s.cs = some st) : st.newDoc = some ⟨s.text, s.cur⟩ :=
   ((reachable_inv hfix h).buf.cs_ok st hcs).text_eq
 
 /-- … the original text and cursor when nothing is selected, -/
-theorem menu_original (hfix : cfg.fixD1 = true) {s : St} (h : Reachable cfg env s)
+theorem menu_original (hfix : CfgOK cfg) {s : St} (h : Reachable cfg env s)
     {st : CState} (hcs : s.cs = some st) (hi : st.index = none) :
     s.text = st.orig.text ∧ s.cur = st.orig.cur := by
   have := menu_text_consistent hfix h hcs
@@ -73,7 +76,7 @@ theorem menu_original (hfix : cfg.fixD1 = true) {s : St} (h : Reachable cfg env 
 
 /-- … and the original with the selected completion applied otherwise; in particular the
     selected completion exists (the index never dangles). -/
-theorem menu_selected (hfix : cfg.fixD1 = true) {s : St} (h : Reachable cfg env s)
+theorem menu_selected (hfix : CfgOK cfg) {s : St} (h : Reachable cfg env s)
     {st : CState} (hcs : s.cs = some st) {i : Nat} (hi : st.index = some i) :
     ∃ c, st.comps[i]? = some c ∧ (⟨s.text, s.cur⟩ : Doc) = applyCompl st.orig c := by
   have := menu_text_consistent hfix h hcs
@@ -85,12 +88,12 @@ theorem menu_selected (hfix : cfg.fixD1 = true) {s : St} (h : Reachable cfg env 
     exact ⟨c, hc, by simpa using this.symm⟩
   · cases this
 
-theorem index_valid (hfix : cfg.fixD1 = true) {s : St} (h : Reachable cfg env s)
+theorem index_valid (hfix : CfgOK cfg) {s : St} (h : Reachable cfg env s)
     {st : CState} (hcs : s.cs = some st) {i : Nat} (hi : st.index = some i) : i < st.comps.length :=
   index_lt_of_newDoc (menu_text_consistent hfix h hcs) hi
 
 /-- no user-level call raises (IndexError / AssertionError) in a reachable state -/
-theorem no_exception (hfix : cfg.fixD1 = true) {s : St} (h : Reachable cfg env s) (a : Act) :
+theorem no_exception (hfix : CfgOK cfg) {s : St} (h : Reachable cfg env s) (a : Act) :
     (step cfg env s a).2 = false := by
   have hb := (reachable_inv hfix h).buf
   cases a with
@@ -109,7 +112,7 @@ theorem no_exception (hfix : cfg.fixD1 = true) {s : St} (h : Reachable cfg env s
     the `new_completion_from_position` image of such a list after its common part was inserted,
     or (menu opened by `start_history_lines_completion`) the history-lines completions of the
     original document. -/
-theorem completions_for_orig (hfix : cfg.fixD1 = true) {s : St} (h : Reachable cfg env s)
+theorem completions_for_orig (hfix : CfgOK cfg) {s : St} (h : Reachable cfg env s)
     {st : CState} (hcs : s.cs = some st) : Provenance env st :=
   ((reachable_inv hfix h).buf.cs_ok st hcs).prov
 
@@ -182,23 +185,23 @@ example : commonSuffix docAbC (envDemoC.comp docAbC) = ['x'] ∧ docAbC.WF ∧
 
 /-- a loading completer whose state object is still the buffer's (`proceed()`): the menu is
     for the document the completer was called with and holds exactly the first `i` results -/
-theorem loading_link (hfix : cfg.fixD1 = true) {s : St} (h : Reachable cfg env s)
+theorem loading_link (hfix : CfgOK cfg) {s : St} (h : Reachable cfg env s)
     {m : Mode} {doc : Doc} {i tok : Nat} (ht : Task.cLoad m doc i tok ∈ s.tasks)
     {st : CState} (hcs : s.cs = some st) (htok : st.token = tok) :
     st.orig = doc ∧ st.comps = (env.comp doc).take i :=
-  ((reachable_inv hfix h).task m doc i tok ht).2 st hcs htok
+  ((reachable_inv hfix h).task _ ht).2 st hcs htok
 
 /-- **verdict_fresh**: a displayed verdict was computed by the validator from a document with
     exactly the current text (the cursor may have moved since: `_cursor_position_changed`
     keeps the verdict). -/
-theorem verdict_fresh (hfix : cfg.fixD1 = true) {s : St} (h : Reachable cfg env s) :
+theorem verdict_fresh (hfix : CfgOK cfg) {s : St} (h : Reachable cfg env s) :
     (s.vs = .valid → s.verr = none ∧
         (cfg.hasV = false ∨ ∃ c, c ≤ s.text.length ∧ env.valid ⟨s.text, c⟩ = none)) ∧
     (s.vs = .invalid → ∃ c msg, c ≤ s.text.length ∧ env.valid ⟨s.text, c⟩ = some msg ∧ s.verr = some msg) :=
   ⟨(reachable_inv hfix h).buf.valid_fresh, (reachable_inv hfix h).buf.invalid_fresh⟩
 
 /-- **suggestion_fresh** -/
-theorem suggestion_fresh (hfix : cfg.fixD1 = true) {s : St} (h : Reachable cfg env s)
+theorem suggestion_fresh (hfix : CfgOK cfg) {s : St} (h : Reachable cfg env s)
     {t : Text} (ht : s.sugg = some t) : ∃ c, c ≤ s.text.length ∧ env.sugg ⟨s.text, c⟩ = some t :=
   (reachable_inv hfix h).buf.sugg_fresh t ht
 
@@ -206,7 +209,7 @@ theorem suggestion_fresh (hfix : cfg.fixD1 = true) {s : St} (h : Reachable cfg e
 
 /-- **one_at_a_time**: per kind, the number of coroutines past the `running` check is the
     flag: at most one, and the flag is never stuck. -/
-theorem one_at_a_time (hfix : cfg.fixD1 = true) {s : St} (h : Reachable cfg env s) :
+theorem one_at_a_time (hfix : CfgOK cfg) {s : St} (h : Reachable cfg env s) :
     cntC s.tasks ≤ 1 ∧ cntV s.tasks ≤ 1 ∧ cntS s.tasks ≤ 1 ∧
     (s.runC = true ↔ cntC s.tasks = 1) ∧ (s.runV = true ↔ cntV s.tasks = 1) ∧
     (s.runS = true ↔ cntS s.tasks = 1) := by
@@ -448,7 +451,7 @@ theorem cancel_restores {s : St} (hb : BufOK cfg env s) {st : CState} (hcs : s.c
     rw [ht]; rfl
 
 /-- `cancel_restores` for every reachable state -/
-theorem cancel_restores_reachable (hfix : cfg.fixD1 = true) {s : St} (h : Reachable cfg env s)
+theorem cancel_restores_reachable (hfix : CfgOK cfg) {s : St} (h : Reachable cfg env s)
     {st : CState} (hcs : s.cs = some st) :
     (step cfg env s .cancel).2 = false ∧ (step cfg env s .cancel).1.cs = none ∧
     (step cfg env s .cancel).1.text = st.orig.text ∧ (step cfg env s .cancel).1.cur = st.orig.cur :=
@@ -458,7 +461,7 @@ theorem cancel_restores_reachable (hfix : cfg.fixD1 = true) {s : St} (h : Reacha
 /-- the cycling laws in every reachable state whose menu was just opened: `n` presses of
     `complete_next()` visit completions `0 … n-1` in order, press `n+1` restores the original
     text; `complete_previous()` does the same backwards -/
-theorem cycle_reachable (hfix : cfg.fixD1 = true) {s : St} (h : Reachable cfg env s)
+theorem cycle_reachable (hfix : CfgOK cfg) {s : St} (h : Reachable cfg env s)
     {st : CState} (hcs : s.cs = some st) (hi : st.index = none) (hne : st.comps ≠ []) :
     (∀ k, k < st.comps.length → (nextN cfg s (k + 1)).cs = some { st with index := some k }) ∧
     (nextN cfg s (st.comps.length + 1)).text = st.orig.text ∧
@@ -474,25 +477,28 @@ theorem cycle_reachable (hfix : cfg.fixD1 = true) {s : St} (h : Reachable cfg en
 
 /-! ### the mechanisms, step by step: a stale result is dropped, not published -/
 
-/-- A completer stream delivers a result (or ends) after the buffer's state object was
-    replaced or discarded (`proceed()` is false): nothing the user sees changes, except that
-    the coroutine may restart for the *current* document with a fresh, empty menu. -/
-theorem stale_completion_not_published (s : St) (m : Mode) (doc : Doc) (i tok : Nat)
-    (hstale : proceed s tok = false) :
-    let r := compResume cfg env s m doc i tok
-    r.1.text = s.text ∧ r.1.cur = s.cur ∧ r.1.vs = s.vs ∧ r.1.verr = s.verr ∧ r.1.sugg = s.sugg ∧
-    (r.1.cs = s.cs ∨ (s.cs = none ∧ r.1.cs = some ⟨s.doc, [], none, s.nextTok⟩ ∧
-                      r.2 = some (.cLoad m s.doc 0 s.nextTok))) := by
-  have happ : ∀ c, appendCompl s tok c = s := by
-    intro c
-    unfold appendCompl
-    unfold proceed at hstale
-    split
-    · rename_i st hcs
-      rw [hcs] at hstale
-      simp only at hstale
-      rw [if_neg (by simpa using hstale)]
-    · rfl
+/-- what "nothing is published" means for a completer segment: nothing the user sees changes,
+    except that the coroutine may restart (`_Retry`) for the *current* document with a fresh,
+    empty menu -/
+def Unpublished (cfg : Config) (env : Env) (s : St) (m : Mode) (r : Seg) : Prop :=
+  r.1.text = s.text ∧ r.1.cur = s.cur ∧ r.1.vs = s.vs ∧ r.1.verr = s.verr ∧ r.1.sugg = s.sugg ∧
+  (r.1.cs = s.cs ∨ (s.cs = none ∧ r.1.cs = some ⟨s.doc, [], none, s.nextTok⟩ ∧
+                    r.2 = (compBegin cfg env s m).2))
+
+theorem appendCompl_stale {s : St} {tok : Nat} (hstale : proceed s tok = false) (c : Completion) :
+    appendCompl s tok c = s := by
+  unfold appendCompl
+  unfold proceed at hstale
+  split
+  · rename_i st hcs
+    rw [hcs] at hstale
+    simp only at hstale
+    rw [if_neg (by simpa using hstale)]
+  · rfl
+
+/-- the rest of `async_completer` after the loop, when `proceed()` is false -/
+theorem compPost_stale (s : St) (m : Mode) (doc : Doc) (tok : Nat) (hstale : proceed s tok = false) :
+    Unpublished cfg env s m (compPost cfg env s m doc tok) := by
   have hdrop : dropNoop cfg s doc tok = s := by
     unfold dropNoop
     unfold proceed at hstale
@@ -502,7 +508,7 @@ theorem stale_completion_not_published (s : St) (m : Mode) (doc : Doc) (i tok : 
       simp only at hstale
       simp [hstale]
     · rfl
-  have hpost : compPost cfg s m doc tok = compElse s m doc := by
+  have hpost : compPost cfg env s m doc tok = compElse cfg env s m doc := by
     unfold compPost
     rw [hdrop]
     unfold compDispatch
@@ -513,34 +519,64 @@ theorem stale_completion_not_published (s : St) (m : Mode) (doc : Doc) (i tok : 
       simp only at hstale
       simp [hstale]
     · rfl
-  have helse : let r := compElse s m doc
-      r.1.text = s.text ∧ r.1.cur = s.cur ∧ r.1.vs = s.vs ∧ r.1.verr = s.verr ∧ r.1.sugg = s.sugg ∧
-      (r.1.cs = s.cs ∨ (s.cs = none ∧ r.1.cs = some ⟨s.doc, [], none, s.nextTok⟩ ∧
-                        r.2 = some (.cLoad m s.doc 0 s.nextTok))) := by
-    unfold compElse
-    split
-    · exact ⟨rfl, rfl, rfl, rfl, rfl, Or.inl rfl⟩
-    · split
-      · unfold compBegin
-        split
-        · exact ⟨rfl, rfl, rfl, rfl, rfl, Or.inl rfl⟩
-        · rename_i hn
-          exact ⟨rfl, rfl, rfl, rfl, rfl, Or.inr ⟨by simpa using hn, rfl, rfl⟩⟩
+  rw [hpost]
+  unfold compElse
+  split
+  · exact ⟨rfl, rfl, rfl, rfl, rfl, Or.inl rfl⟩
+  · split
+    · unfold compBegin
+      split
       · exact ⟨rfl, rfl, rfl, rfl, rfl, Or.inl rfl⟩
+      · rename_i hn
+        have hn' : s.cs = none := by simpa using hn
+        exact ⟨rfl, rfl, rfl, rfl, rfl, Or.inr ⟨hn', rfl, by simp [compBegin, hn']⟩⟩
+    · exact ⟨rfl, rfl, rfl, rfl, rfl, Or.inl rfl⟩
+
+/-- A completer stream delivers a result (or ends) after the buffer's state object was
+    replaced or discarded (`proceed()` is false): nothing the user sees changes, except that
+    the coroutine may restart for the *current* document with a fresh, empty menu. -/
+theorem stale_completion_not_published (s : St) (m : Mode) (doc : Doc) (i tok : Nat)
+    (hstale : proceed s tok = false) :
+    Unpublished cfg env s m (compResume cfg env s m doc i tok) := by
   unfold compResume
   split
   · rename_i c hc
-    simp only [happ c, hstale, Bool.not_false, if_true, hpost]
-    exact helse
-  · rw [hpost]; exact helse
+    simp only [appendCompl_stale hstale c, hstale, Bool.not_false, if_true]
+    exact compPost_stale s m doc tok hstale
+  · exact compPost_stale s m doc tok hstale
 
-/-- The validator answers for a document that is no longer the buffer's: no verdict is
+/-- The same with a `ThreadedCompleter`, element by element: a queue element that reaches the
+    `async for` body after the state object was replaced changes nothing at all (the loop is
+    left, `quitting` is set, the coroutine waits for the producer thread) … -/
+theorem stale_threaded_item_not_published (s : St) (m : Mode) (doc : Doc) (tok : Nat) (h : HS) (j : Nat)
+    (hstale : proceed s tok = false) {c : Completion} (hc : (env.comp doc)[j]? = some c) :
+    compItemT cfg env s m doc tok h (.item j) = (s, some (.cCloseT m doc tok (quit h) false)) := by
+  simp only [compItemT, hc, appendCompl_stale hstale c, hstale, Bool.not_false, if_true]
+
+/-- … and when the producer thread has returned and the coroutine goes on after
+    `await runner_f`, nothing is published either. -/
+theorem stale_threaded_close_not_published (s : St) (m : Mode) (doc : Doc) (tok : Nat) (h : HS)
+    (hstale : proceed s tok = false) (hex : h.pc.isExit = true) :
+    Unpublished cfg env s m (compCloseT cfg env s m doc tok h false) := by
+  simp only [compCloseT, hex, if_true, Bool.false_eq_true, if_false]
+  exact compPost_stale s m doc tok hstale
+
+/-- while the producer thread is still running, `await runner_f` does not return: the
+    coroutine publishes nothing and keeps its `running` flag -/
+theorem closing_waits_for_producer (s : St) (m : Mode) (doc : Doc) (tok : Nat) (h : HS) (c : Bool)
+    (hex : h.pc.isExit = false) :
+    compCloseT cfg env s m doc tok h c = (s, some (.cCloseT m doc tok h c)) := by
+  simp [compCloseT, hex]
+
+/-- The validator answers for a document that is no longer the buffer's — another text, another
+    cursor position, or (`Document.__eq__` compares it too) another selection: no verdict is
     published (the coroutine validates the current document instead, or stops if a verdict
     exists already). -/
-theorem stale_verdict_not_published (s : St) (doc : Doc) (hstale : s.doc ≠ doc) :
-    (valResume env s doc).1.vs = s.vs ∧ (valResume env s doc).1.verr = s.verr ∧
-    (valResume env s doc).1.text = s.text ∧
-    ((valResume env s doc).2 = none ∨ (valResume env s doc).2 = some (.vWait s.doc)) := by
+theorem stale_verdict_not_published (s : St) (doc : Doc) (sel : Option Nat)
+    (hstale : s.doc ≠ doc ∨ s.sel ≠ sel) :
+    (valResume env s doc sel).1.vs = s.vs ∧ (valResume env s doc sel).1.verr = s.verr ∧
+    (valResume env s doc sel).1.text = s.text ∧
+    ((valResume env s doc sel).2 = none ∨ (valResume env s doc sel).2 = some (.vWait s.doc s.sel)) := by
   unfold valResume
   rw [if_pos hstale]
   unfold valLoop
@@ -550,30 +586,47 @@ theorem stale_verdict_not_published (s : St) (doc : Doc) (hstale : s.doc ≠ doc
 
 /-- A verdict is published only by a validator that was called with the buffer's current
     document, and it is that document's verdict. -/
-theorem verdict_published_for_current (s : St) (doc : Doc)
-    (hpub : (valResume env s doc).1.vs ≠ s.vs) :
-    s.doc = doc ∧ (valResume env s doc).1.verr = env.valid s.doc ∧
-    ((valResume env s doc).1.vs = .invalid ↔ (env.valid s.doc).isSome) := by
-  by_cases hd : s.doc = doc
-  · subst hd
-    refine ⟨rfl, ?_, ?_⟩
-    · unfold valResume; simp only [ne_eq, not_true_eq_false, if_false]
+theorem verdict_published_for_current (s : St) (doc : Doc) (sel : Option Nat)
+    (hpub : (valResume env s doc sel).1.vs ≠ s.vs) :
+    s.doc = doc ∧ s.sel = sel ∧ (valResume env s doc sel).1.verr = env.valid s.doc ∧
+    ((valResume env s doc sel).1.vs = .invalid ↔ (env.valid s.doc).isSome) := by
+  by_cases hd : s.doc = doc ∧ s.sel = sel
+  · obtain ⟨hd, hs⟩ := hd
+    subst hd; subst hs
+    refine ⟨rfl, rfl, ?_, ?_⟩
+    · unfold valResume; simp only [ne_eq, not_true_eq_false, or_self, if_false]
       split <;> simp_all
-    · unfold valResume; simp only [ne_eq, not_true_eq_false, if_false]
+    · unfold valResume; simp only [ne_eq, not_true_eq_false, or_self, if_false]
       split <;> simp_all
-  · exact absurd (stale_verdict_not_published (env := env) s doc hd).1 hpub
+  · have : s.doc ≠ doc ∨ s.sel ≠ sel := by
+      by_cases h1 : s.doc = doc
+      · exact Or.inr (fun h2 => hd ⟨h1, h2⟩)
+      · exact Or.inl h1
+    exact absurd (stale_verdict_not_published (env := env) s doc sel this).1 hpub
 
-/-- The suggester answers for a document that is no longer the buffer's: nothing is
-    published; the coroutine retries with the current document. -/
-theorem stale_suggestion_not_published (s : St) (doc : Doc) (hstale : s.doc ≠ doc) :
-    (sugResume env s doc).1.sugg = s.sugg ∧ (sugResume env s doc).1.text = s.text ∧
-    ((sugResume env s doc).2 = none ∨ (sugResume env s doc).2 = some (.sWait s.doc)) := by
+/-- The suggester answers for a document that is no longer the buffer's (text, cursor or
+    selection): nothing is published; the coroutine retries with the current document. -/
+theorem stale_suggestion_not_published (s : St) (doc : Doc) (sel : Option Nat)
+    (hstale : s.doc ≠ doc ∨ s.sel ≠ sel) :
+    (sugResume env s doc sel).1.sugg = s.sugg ∧ (sugResume env s doc sel).1.text = s.text ∧
+    ((sugResume env s doc sel).2 = none ∨ (sugResume env s doc sel).2 = some (.sWait s.doc s.sel)) := by
   unfold sugResume
-  rw [if_neg hstale]
+  have : ¬ (s.doc = doc ∧ s.sel = sel) := by
+    rintro ⟨a, b⟩; rcases hstale with h | h; exact h a; exact h b
+  rw [if_neg this]
   unfold sugBegin
   split
   · exact ⟨rfl, rfl, Or.inl rfl⟩
   · exact ⟨rfl, rfl, Or.inr rfl⟩
+
+/-- **a selection change alone discards an answer in flight**: the user starts (or leaves) a
+    selection while the validator / suggester runs — text and cursor are the same, yet the
+    answer is dropped and recomputed.  Allowed by the property (nothing stale is shown), and
+    the reason `selection_state` is part of the model. -/
+theorem selection_change_discards (s : St) (doc : Doc) (sel : Option Nat) (hsel : s.sel ≠ sel) :
+    (valResume env s doc sel).1.vs = s.vs ∧ (sugResume env s doc sel).1.sugg = s.sugg :=
+  ⟨(stale_verdict_not_published s doc sel (Or.inr hsel)).1,
+   (stale_suggestion_not_published s doc sel (Or.inr hsel)).1⟩
 
 /-- every change of text clears menu, verdict and suggestion in the same atomic step -/
 theorem text_change_clears (s : St) (t : Text) (c : Nat) (ht : t ≠ s.text) :
@@ -629,7 +682,7 @@ theorem foreign_menu_blocks_stream {s : St} (h : Inv cfg env s)
       exact mem_cLoad_pendExt (goTo_spec h1.buf hcs1 none (by intro j hj; cases hj)).2.2.1.ext ht
     · exact mem_cLoad_pendExt (goTo_spec h1.buf hcs1 (some 0) (by
         intro j hj; cases hj; exact List.length_pos_iff.mpr hn)).2.2.1.ext ht
-  have hlt := (h.task m doc i tok hmem).1
+  have hlt := (h.task _ hmem).1
   unfold proceed
   rw [hcs]
   simp; omega
@@ -638,8 +691,8 @@ theorem foreign_menu_blocks_stream {s : St} (h : Inv cfg env s)
 /-! ### the unrepaired `async_completer` (before commit 279c220) violates the property -/
 
 /-- the code as it was: the single no-op completion is dropped even while it is selected -/
-def cfgUnfixed : Config := ⟨false, false, false, false, 10000, false⟩
-def cfgFixed : Config := ⟨false, false, false, false, 10000, true⟩
+def cfgUnfixed : Config := ⟨false, false, false, false, 10000, false, false, 1000⟩
+def cfgFixed : Config := ⟨false, false, false, false, 10000, true, false, 1000⟩
 
 /-- a completer whose only completion replaces the last three characters by themselves -/
 def envNoop : Env := ⟨mkComp [⟨3, true, []⟩], fun _ => none, fun _ => none, fun c => c == ' '⟩
@@ -667,7 +720,8 @@ theorem fixed_keeps_selected :
 
 /-! ### non-vacuity: concrete reachable states exercising every hypothesis above -/
 
-def cfgAll : Config := ⟨true, true, true, true, 10000, true⟩
+def cfgAll : Config := ⟨true, true, true, true, 10000, true, false, 1000⟩
+theorem cfgAll_ok : CfgOK cfgAll := ⟨rfl, by decide⟩
 
 /-- completer: last char + "xy", last char + "xz" (common part "x"); validator: invalid iff
     (len + cursor) % 3 = 0; suggester: none iff len is even, else last two characters + "!" -/
@@ -728,7 +782,7 @@ example :
 example :
     (run cfgAll envDemo (init docAb) [.insert ['a'], .start 0, .insert ['a'], .resume 0]).vs = .unknown ∧
     (run cfgAll envDemo (init docAb) [.insert ['a'], .start 0, .insert ['a'], .resume 0]).tasks.head? =
-      some (.vWait ⟨['a', 'b', 'a', 'a'], 4⟩) := by decide
+      some (.vWait ⟨['a', 'b', 'a', 'a'], 4⟩ none) := by decide
 
 /-- `one_at_a_time`: a second completer started while the first is loading returns at once -/
 example :
@@ -764,5 +818,14 @@ example :
       [.startCompletion .plain, .start 0, .resume 0, .resume 0, .resume 0]) 2).text = ['a', 'b', 'x', 'z'] ∧
     (nextN cfgAll (run cfgAll envDemo (init docAb)
       [.startCompletion .plain, .start 0, .resume 0, .resume 0, .resume 0]) 3).text = ['a', 'b'] := by decide
+
+/-- `selection_change_discards`: typing starts the validator; the user starts a selection while it
+    runs; the answer is dropped and the current document (with the selection) validated instead -/
+example :
+    (run cfgAll envDemo (init docAb) [.insert ['a'], .start 0, .startSel, .resume 0]).vs = .unknown ∧
+    (run cfgAll envDemo (init docAb) [.insert ['a'], .start 0, .startSel, .resume 0]).tasks.head? =
+      some (.vWait ⟨['a', 'b', 'a'], 3⟩ (some 0)) ∧
+    (run cfgAll envDemo (init docAb) [.insert ['a'], .start 0, .startSel, .resume 0, .resume 0]).vs = .invalid := by
+  decide
 
 end Ptk.C15
